@@ -125,7 +125,7 @@ Proof.
   - injection H as <- <-. split; [assumption|]. split; [lia|]. split; [reflexivity|]. split; constructor.
   - destruct (ekind_eqb (st_kind st) KHold).
     { (* a step during which the commit is held inside the engine *)
-      destruct (seq_all_ok 64 s I) as (I2 & D2).
+      destruct (seq_all_ok seq_fuel s I) as (I2 & D2).
       match type of H with (if ?c then _ else _) = _ => destruct c eqn:Ec; [|discriminate] end.
       repeat (apply andb_true_iff in Ec; destruct Ec as [Ec ?]).
       apply N.leb_le in H0, H1.
@@ -137,7 +137,7 @@ Proof.
       - constructor; [|exact Rf]. destruct (st_resps st); [constructor|discriminate]. }
     destruct (resume cidx0 s (st_t st) (st_env st) (lookup [] (st_t st) queues)) as [[[s1 qu] resps] ls] eqn:Er.
     destruct (resume_ok _ _ _ _ _ _ _ _ Er I) as (I1 & D1 & R1).
-    destruct (seq_all_ok 64 s1 I1) as (I2 & D2).
+    destruct (seq_all_ok seq_fuel s1 I1) as (I2 & D2).
     match type of H with (if ?c then _ else _) = _ => destruct c eqn:Ec; [|discriminate] end.
     repeat (apply andb_true_iff in Ec; destruct Ec as [Ec ?]).
     apply N.leb_le in H0, H1.
